@@ -51,6 +51,9 @@ func RunCmd(argv []string) int {
 			}
 		}()
 		f(c)
+		if c.Thorough() {
+			c.CrossCheck()
+		}
 	}()
 	c.WriteEvidence()
 	for _, k := range c.Known {
